@@ -46,6 +46,31 @@ Oracle, per case (one fresh build of the stack `s`, snapshot, c1 = serialize(s),
   Further history clauses (each only when everything before held): (D) value changed by the caller between two calls, (E)
   parsed stack serialised again, (F) parsed values used / edited then the cell parsed again, (G) stack behind a consumed
   prefix, (H) a refused serialize leaves the values intact.
+  (D') reference replaced: the first reference of the first builder that has one is replaced (through the `refs` setter or in the
+                  list) between two serialisations, earlier results alive - bits and reference COUNT are what they were; the
+                  new cell denotes the builder as it is now. `after-mutation/stale-or-wrong/reference-replaced-<how>`
+  (J) results are values: a fresh build is serialised and parsed, tree of the cell and reading of the parsed values noted; then
+                  the caller carries on with ITS objects the way they are meant to be used (reads bits and a reference from
+                  every slice it holds, code slices of continuations included; stores bits and a reference into every
+                  builder; appends to every tuple), serialises them as they are now, parses that. The earlier cell is bit for
+                  bit what it was and parses to the original values, the earlier parsed values read as before, the new cell
+                  denotes the values as they are now; all re-checked after the later calls.
+                  `result-shares-state-with-the-callers-values/..`, `parsed-values-share-state/..`, `after-use/..`
+  (K) temporaries: for the first two container values of the stack: built, serialised alone, result kept, value dropped; values
+                  of the same type, shape and sizes but other content (referenced cells complemented, ints moved by one) are
+                  built until one lives at the dead one's address (<= 8 tries) and serialised: the cell denotes the new value
+                  and parses to it; then the other way round. `temporaries/earlier-value-shows-through/<type>/<class>`
+
+Sub-check `deep-stacks-at-the-recursion-limit` (enumerated, so that no Hypothesis frame / raised recursion limit surrounds the
+call): stacks of 900..1023 entries (fills: ints and nulls / eleven kinds of value / short tuples) and smaller stacks called
+from 100..950 frames down, entries + caller depth sweeping limit-40..limit+8 (limit = sys.getrecursionlimit() as found); tuples
+of length 1, 2, 3 nested up to limit/2 (limit/4) levels. Every library call is made in a fresh thread (empty call stack) below
+`pad` frames. Oracle: a RecursionError is accepted where entries + pad (or frames-per-level x nesting + pad) is within 45 of
+the limit, otherwise and for any other exception it is a failure; a returned cell decodes (loop-based reader; for nested tuples
+a hand-derived level-by-level walk) to ALL entries in order, twice the same cell, caller's list and values untouched (also
+after a refusal, after which the lower 60 entries serialise correctly), parsing gives all entries or RecursionError; for the
+ints fill the hand-assembled cell of the same stack has the same hash and is parsed at every depth, also where the writer
+refuses. Signatures `deep/..`.
 
 Attribution of continuation read-back failures: `VmCont.deserialize` is probed with the 36-bit slice
 '1000' + int32(5) (vmc_quit); when that does not give exit_code 5 the reader demonstrably does not skip the
@@ -62,7 +87,11 @@ Not asserted / excluded:
     reference, > 4 in a tuple entry/dictionary leaf, or > 1023 bits) are not generated: the generator degrades them
     (`_fit`) before the case is produced, so cases remain plain constructed data.
   * plain Python lists as tuples and bool as int are not generated (VmTuple is the library's tuple type).
-  * exotic cells are not generated. Stack depth <= 40 quick, <= 300 thorough (the statement's 2^24-1 "in principle").
+  * exotic cells are not generated. Stack depth <= 40 quick, <= 300 thorough in the random sub-checks, 900..1023 in the deep one
+    (a VmStackList chain is as deep as the stack and cells are at most 1024 deep; the statement's 2^24-1 is "in principle").
+  * that a stack near the recursion limit IS serialised / parsed: the unchanged library raises RecursionError from about
+    986 entries (492 / 246 tuple levels) under the default limit; only a wrong result is a failure there. Changing the
+    recursion limit, deeply nested continuations.
   * Trusted base: Builder/Cell construction, `Cell.hash`, `HashMap.serialize` for building the save-list input.
 
 env VERIF_IGNORE_SIG='sig1,sig2' (development aid, default empty): failures with these signatures are dropped and
@@ -85,7 +114,12 @@ RULE = ('case = a stack (list, bottom first) of value specs: null, int (decimal 
         'all boundary ints. '
         'every case also carries the histories: serialise twice; values / cell / parsed values formatted (str, repr, format, '
         'f-string, bool of EACH reachable object by itself, once and repeatedly) between two uses; parsed values used and edited '
-        'then parsed again; a value changed between two calls; a refused call; the stack behind a consumed prefix. '
+        'then parsed again; a value changed between two calls (tuple appended, builder bit stored / flipped, builder reference '
+        'replaced); a refused call; the stack behind a consumed prefix; the caller reading from its slices / storing into its '
+        'builders / appending to its tuples AFTER a call, every earlier result re-checked and the new state serialised; a value '
+        'dropped and a same-shaped one with other content built at its address while the earlier result is alive. '
+        'deep sub-check (enumerated): stacks of 900..1023 entries and tuples nested to the recursion limit, called in a fresh '
+        'thread from a chosen depth, totals sweeping the band around sys.getrecursionlimit(). '
         'non-trivial = contains a tuple of length >= 2, a continuation, or an int within 1 of a form boundary '
         '(+-2^63, range ends); distinct = distinct case')
 ASSUMPTIONS = ['harness/ref/refvmstack.py: independent VmStack/VmCont/HashmapE decoder over (bits, refs) trees, '
@@ -914,7 +948,270 @@ def _all_failures(case):
                         fails.append(Fail(f'after-mutation/stale-or-wrong/{kind}', f'serialised, then {kind} at {path}, serialised again: '
                                           f'{m.path}: {m.detail}'))
                         break
+    # (D') the same with a builder whose first reference is replaced (bits and number of references stay what they were)
+    if not mutated and not fails:
+        fails.extend(_reference_replaced(specs, c1))
+    # (J) results are values: what a call returned stays what it was while the caller carries on with its own objects
+    if not mutated and not fails:
+        fails.extend(_results_are_values(specs, want))
+    # (K) temporaries: a value that has died and a new one that lives where it lived
+    if not mutated and not fails:
+        fails.extend(_temporaries(specs))
     return _dedupe(fails)
+
+
+_OTHER = {'bits': '110010', 'refs': [{'bits': '01', 'refs': []}]}
+
+
+def _reference_replaced(specs, earlier):
+    """clause (D'): fresh build, serialised (the result and `earlier`, the cell of clause C, stay alive), then the first reference of
+    the first builder that has one (at the top level or inside tuples) is replaced - through the `refs` setter or in the list,
+    by position in the stack - and the stack is serialised again: the new cell denotes the builder as it is now"""
+    from pytoniq_core.tlb.vm_stack import VmStack
+    found = []
+
+    def walk(v, path):
+        if found:
+            return
+        if v['t'] == 'builder' and v['c'].get('refs'):
+            found.append(path)
+        elif v['t'] == 'tuple':
+            for i, x in enumerate(v['items']):
+                walk(x, path + [i])
+
+    for i, v in enumerate(specs):
+        walk(v, [i])
+    if not found:
+        return []
+    path = found[0]
+    ok, s = call(lambda: [mk_value(v) for v in specs])
+    if not ok:
+        return []
+    ok, before = call(VmStack.serialize, s)
+    if not ok:
+        return []
+    specs2 = json.loads(json.dumps(specs))
+    node, obj = specs2[path[0]], s[path[0]]
+    for i in path[1:]:
+        node, obj = node['items'][i], obj.list[i]
+    other = _OTHER if _tree(node['c']['refs'][0]) != _tree(_OTHER) else {'bits': '1', 'refs': []}
+    node['c']['refs'][0] = other
+    how = 'setter' if sum(path) % 2 else 'in-place'
+    if how == 'setter':
+        obj.refs = [mk_cell(other)] + list(obj.refs[1:])
+    else:
+        obj.refs[0] = mk_cell(other)
+    ok, after = call(VmStack.serialize, s)
+    if not ok:
+        return [Fail(f'after-mutation/serialize-raises/{exc_sig(after)}', repr(after))]
+    try:
+        d = rv.decode_stack(rv.to_tree(after))
+    except (rv.DecodeError, RecursionError) as e:
+        return [Fail('after-mutation/undecodable', str(e))]
+    for m in diff(d, [expect(v) for v in specs2]):
+        return [Fail(f'after-mutation/stale-or-wrong/reference-replaced-{how}', f'serialised, then the first reference of the builder at {path} '
+                     f'replaced ({how}), serialised again (earlier results still alive): {m.path}: {m.detail}')]
+    return []
+
+
+def _flip(bits):
+    return bits.translate({48: 49, 49: 48})
+
+
+def _variant(v):
+    """a value of the same type, shape and sizes as v but other content: referenced cells below a cell / slice / builder have their
+    bits complemented (an empty one gets a bit), a container without references has its own bits complemented; tuple items and
+    the parts of continuations likewise; integers inside them move by one"""
+    t = v['t']
+    if t in ('cell', 'slice', 'builder'):
+        c = v['c']
+        if c.get('refs'):
+            c2 = {'bits': c['bits'], 'refs': [{'bits': _flip(r['bits']) or '1', 'refs': r.get('refs', [])} for r in c['refs']]}
+        else:
+            c2 = {'bits': _flip(c['bits']), 'refs': []}
+        return dict(v, c=c2)
+    if t == 'int':
+        x = int(v['v'])
+        y = x + 1 if (-M63 < x + 1 < M63) == (-M63 < x < M63) and x + 1 <= INT_MAX else x - 1
+        return _I(y)
+    if t == 'tuple':
+        return {'t': 'tuple', 'items': [_variant(x) for x in v['items']]}
+    if t == 'cont':
+        return _variant_cont(v)
+    return v
+
+
+def _variant_cont(c):
+    out = dict(c)
+    for name, typ in CONT_FIELDS[c['k']]:
+        if typ == 'cont':
+            out[name] = _variant_cont(c[name])
+        elif typ == 'slice':
+            out[name] = {k: x for k, x in _variant(dict(c[name], t='slice')).items() if k != 't'}
+        elif typ == 'int' and name == 'exit_code':
+            out[name] = int(c[name]) + 1 if int(c[name]) < 2 ** 31 - 1 else int(c[name]) - 1
+    return out
+
+
+def _temporaries(specs):
+    """clause (K). For the first container values of the stack (cell, slice, builder, tuple, continuation): the value is built,
+    serialised in a one-entry stack, the RESULT is kept and the value dropped (no other reference); then values of the same type,
+    shape and sizes but other content (_variant) are built until one lives at the address the dead one had (a few tries; the
+    misses stay alive) and that one is serialised: the cell denotes the NEW value, and parses to it. Then the other way round."""
+    from pytoniq_core.tlb.vm_stack import VmStack
+    out = []
+    picked = [v for v in specs if v['t'] in ('cell', 'slice', 'builder', 'tuple', 'cont')][:2]
+    for v in picked:
+        vb = _variant(v)
+        if expect(vb) == expect(v):
+            continue
+        kept = []
+        for first, second in ((v, vb), (vb, v)):
+            ok, a = call(mk_value, first)
+            if not ok:
+                return out
+            addr = id(a)
+            ok, ra = call(VmStack.serialize, [a])
+            if not ok:
+                return out
+            kept.append(ra)
+            del a
+            parked = []
+            b = None
+            for _ in range(8):
+                ok, b = call(mk_value, second)
+                if not ok:
+                    return out
+                if id(b) == addr:
+                    break
+                parked.append(b)
+            ok, rb = call(VmStack.serialize, [b])
+            if not ok:
+                out.append(Fail(f'temporaries/serialize-raises/{exc_sig(rb)}', repr(rb)))
+                return out
+            kept.append(rb)
+            try:
+                d = rv.decode_stack(rv.to_tree(rb))
+            except (rv.DecodeError, RecursionError) as e:
+                out.append(Fail('temporaries/undecodable', str(e)))
+                return out
+            for m in diff(d, [expect(second)]):
+                out.append(Fail(f'temporaries/earlier-value-shows-through/{second["t"]}/{m.cls}',
+                                f'a {first["t"]} was serialised and dropped (its result kept), a {second["t"]} of the same shape and sizes but '
+                                f'other content built next is serialised: the cell does not denote it: {m.path}: {m.detail}'))
+                return out
+            okp, back = call(lambda: VmStack.deserialize(rb.begin_parse()))
+            if okp and isinstance(back, list):
+                for m in diff([norm(x) for x in back], [expect(second)]):
+                    out.append(Fail(f'temporaries/parsed/{second["t"]}/{m.cls}', f'{m.path}: {m.detail}'))
+                    return out
+            del b, parked
+    return out
+
+
+def _carry_on(roots):
+    """the caller goes on using the objects it owns, the way they are meant to be used: reads from every slice it holds (also
+    the code slice of a continuation), stores into every builder, appends to every tuple. Returns the kinds of object used."""
+    used = set()
+    for o in _reachable(roots):
+        name = type(o).__name__
+        if name == 'Slice':
+            n = len(o.bits)
+            if n:
+                used.add('slice-read')
+                call(o.load_bits, min(8, n))
+                if len(o.bits) > 3:
+                    call(o.skip_bits, 1)
+            if o.ref_offset < len(o.refs):
+                used.add('slice-ref-read')
+                call(o.load_ref)
+        elif name == 'Builder':
+            if len(o.bits) + 3 <= 1023:
+                used.add('builder-stored')
+                call(o.store_bits, '101')
+            if len(o.refs) < 4:
+                used.add('builder-ref-stored')
+                call(o.store_ref, mk_cell({'bits': '0110', 'refs': []}))
+        elif name == 'VmTuple' and isinstance(getattr(o, 'list', None), list) and len(o.list) < 250:
+            used.add('tuple-appended')
+            o.list.append(-54321)
+    return used
+
+
+def _results_are_values(specs, want):
+    """clause (J). A fresh build of the stack is serialised and parsed; the tree of the returned cell and the reading of
+    the parsed values are noted AT THAT MOMENT. Then the caller uses its objects further (_carry_on), serialises them as they
+    are now and parses that: the earlier cell is, bit for bit and reference for reference, what it was, still parses to
+    the original values, the earlier parsed values read as before - and the new cell denotes the values as they are now."""
+    from pytoniq_core.tlb.vm_stack import VmStack
+    out = []
+    ok, sj = call(lambda: [mk_value(v) for v in specs])
+    if not ok:
+        return out
+    ok, ca = call(VmStack.serialize, sj)
+    if not ok:
+        return out                                       # clause C reports a call that raises
+    ok, parsed = call(lambda: VmStack.deserialize(ca.begin_parse()))
+    if not ok or not isinstance(parsed, list):
+        return out                                       # clause A reports it
+    ta = rv.to_tree(ca)
+    parsed_reading = [norm(x) for x in parsed]
+    if diff(parsed_reading, want):
+        return out
+    used = _carry_on(sj)
+    if not used:
+        return out
+    how = '+'.join(sorted(used))
+    now = [norm(x) for x in sj]
+
+    def recheck(stage):
+        for nm, c, t in (('earlier', ca, ta),):
+            t2 = rv.to_tree(c)
+            if t2 != t:
+                try:
+                    ms = diff(rv.decode_stack(t2), want)
+                    cls = ms[0].cls if ms else 'same-values-other-cells'
+                    det = f'{ms[0].path}: {ms[0].detail}' if ms else ''
+                except (rv.DecodeError, RecursionError) as e:
+                    cls, det = 'undecodable', str(e)
+                out.append(Fail(f'result-shares-state-with-the-callers-values/{stage}/{cls}',
+                                f'the {nm} cell returned by VmStack.serialize changed after the caller used its own objects ({how}): {det}'))
+                return False
+        if stage != 'after-use':
+            okp, again = True, None
+        else:
+            okp, again = call(lambda: VmStack.deserialize(ca.begin_parse()))
+        if not okp:
+            out.append(Fail(f'result-shares-state-with-the-callers-values/{stage}/parse-raises/{exc_sig(again)}', repr(again)))
+            return False
+        for m in (diff([norm(x) for x in again], want) if again is not None else ()):
+            out.append(Fail(f'result-shares-state-with-the-callers-values/{stage}/parsed/{m.cls}',
+                            f'serialised, caller used its own objects ({how}), the earlier cell now parses to {m.path}: {m.detail}'))
+            return False
+        for m in diff([norm(x) for x in parsed], parsed_reading):
+            out.append(Fail(f'parsed-values-share-state/{stage}/{m.cls}',
+                            f'values parsed earlier changed while the caller used the ORIGINAL objects ({how}): {m.path}: {m.detail}'))
+            return False
+        return True
+
+    if not recheck('after-use'):
+        return out
+    ok, cc = call(VmStack.serialize, sj)
+    if not ok:
+        out.append(Fail(f'after-use/serialize-raises/{exc_sig(cc)}', f'({how}) {cc!r}'))
+        return out
+    try:
+        dc = rv.decode_stack(rv.to_tree(cc))
+    except (rv.DecodeError, RecursionError) as e:
+        out.append(Fail('after-use/undecodable', f'({how}) {e}'))
+        return out
+    for m in diff(dc, now):
+        out.append(Fail(f'after-use/stale-or-wrong/{m.cls}', f'serialised, caller used its objects ({how}), serialised again: the cell does '
+                        f'not denote the values as they are now: {m.path}: {m.detail}'))
+        return out
+    call(lambda: VmStack.deserialize(cc.begin_parse()))
+    recheck('after-a-later-call')
+    return out
 
 
 def _reachable(roots, cap=400):
@@ -1455,6 +1752,349 @@ def _window_classes(case):
     yield 'window:refs=' + ('full' if (sr, er) == (0, nr) else 'empty' if sr == er else 'prefix' if sr == 0 else 'suffix' if er == nr else 'inner')
 
 
+# --------------------------------------------------------------------------------------------------
+# stacks and tuples as deep as the interpreter lets the (recursive) library go
+
+_C0 = {'bits': '1011', 'refs': [{'bits': '', 'refs': []}]}
+
+
+def _deep_value(i, fill):
+    """the i-th entry (bottom first) of a deep stack: a pure function of the index and the fill kind; every entry is small"""
+    if fill == 'ints':
+        return NULL if i % 7 == 3 else _I((i - 5) * 3 ** (i % 150)) if i % 5 else _I(i - 400)
+    if fill == 'tuples':
+        return {'t': 'tuple', 'items': [_I(i + j) for j in range(i % 4)]}
+    k = i % 11
+    return (_I(i), NULL, {'t': 'cell', 'c': _C0}, {'t': 'slice', 'c': _C0, 'cb': i % 3, 'cr': i % 2},
+            {'t': 'builder', 'c': _C0}, {'t': 'tuple', 'items': [_I(i), _I(-i)]}, {'t': 'tuple', 'items': []},
+            {'t': 'cont', 'k': 'quit', 'exit_code': i}, _I(M63 + i), {'t': 'tuple', 'items': [{'t': 'tuple', 'items': [_I(i)]}]},
+            _I(-M63 - i))[k]
+
+
+def _at_depth(pad, thunk):
+    """(ok, value | exception) of the library call `thunk`, made from a NEW thread - whose call stack starts empty, whatever the
+    test runner has piled up in this one - below `pad` extra frames: the depth the call is made from is part of the case"""
+    import threading
+    box = []
+
+    def down(d):
+        if d > 0:
+            return down(d - 1)
+        box.append(call(thunk))
+
+    def body():
+        try:
+            down(pad)
+        except BaseException as e:                       # noqa: must not be lost in the thread
+            box.append((False, e))
+
+    t = threading.Thread(target=body)
+    t.start()
+    t.join()
+    return box[0]
+
+
+def _tree_iter(cell):
+    """rv.to_tree without recursion (a chain of 1023 cells)"""
+    memo, todo, keep = {}, [(cell, False)], []
+    while todo:
+        c, done = todo.pop()
+        if id(c) in memo:
+            continue
+        if done:
+            memo[id(c)] = (c.bits.to01(), [memo[id(r)] for r in c.refs])
+            keep.append(c)
+        else:
+            todo.append((c, True))
+            todo.extend((r, False) for r in c.refs if id(r) not in memo)
+    return memo[id(cell)]
+
+
+def _hand_stack_of_ints(values):
+    """the VmStack cell of a stack of None / int, assembled bit by bit (Builder = trusted base), chained in a loop"""
+    from pytoniq_core.boc.builder import Builder
+    chain = Builder().end_cell()
+    n = len(values)
+    for i, v in enumerate(values):
+        if v is None:
+            b = '00000000'
+        elif -M63 < v < M63:
+            b = '00000001' + format(v % (1 << 64), '064b')
+        else:
+            b = '000000100000000' + format(v % (1 << 257), '0257b')
+        bld = Builder()
+        if i == n - 1:
+            bld.store_bits(format(n, '024b'))
+        bld.store_ref(chain).store_bits(b)
+        chain = bld.end_cell()
+    if n == 0:
+        return Builder().store_bits('0' * 24).end_cell()
+    return chain
+
+
+def _may_refuse(frames):
+    import sys
+    return frames + 45 >= sys.getrecursionlimit()
+
+
+def _refusal(e, frames, what):
+    """an exception from a deep call: the interpreter's recursion limit is a loud, acceptable answer where the input is deep
+    enough to reach it; anything else (or a refusal of an input far from the limit) is a failure of the round trip"""
+    if _may_refuse(frames) and isinstance(e, RecursionError):
+        return None
+    return Fail(f'deep/{what}-raises/{exc_sig(e)}', f'{e!r} ({frames} entries + frames below the call)')
+
+
+def check_deep(case):
+    if 'nest' in case:
+        return _check_deep_nest(case)
+    from pytoniq_core.tlb.vm_stack import VmStack
+    n, pad, fill = case['n'], case['pad'], case['fill']
+    specs = [_deep_value(i, fill) for i in range(n)]
+    want = [expect(v) for v in specs]
+    s = [mk_value(v) for v in specs]
+    held = list(s)
+    snap = [norm(x) for x in s]
+    for m in diff(snap, want):
+        return Fail(f'build/{m.cls}', f'{m.path}: {m.detail}')
+    ok, c1 = _at_depth(pad, lambda: VmStack.serialize(s))
+    ser_ok = ok
+    unchanged = lambda: len(s) == len(held) and all(a is b for a, b in zip(s, held)) and not diff([norm(x) for x in held], snap)
+    if not unchanged():
+        return Fail('deep/consumed/' + ('serialized' if ok else 'refused'), f'{n} entries, called from depth {pad}: the caller\'s list / '
+                    f'values are not what they were (list length {len(s)})')
+    if not ok:
+        f = _refusal(c1, n + pad, 'serialize')
+        if f:
+            return f
+        # nothing lingers: the lower part of the same stack, well inside the limit, serialises to exactly its values
+        low = s[:min(n, 60)]
+        ok, cl = _at_depth(0, lambda: VmStack.serialize(low))
+        if not ok:
+            return Fail(f'deep/after-refusal/serialize-raises/{exc_sig(cl)}', repr(cl))
+        try:
+            dl = rv.decode_stack(_tree_iter(cl))
+        except rv.DecodeError as e:
+            return Fail(f'deep/after-refusal/undecodable/{e.what}', str(e))
+        for m in diff(dl, want[:len(low)]):
+            return Fail(f'deep/after-refusal/{m.cls}', f'{m.path}: {m.detail}')
+    else:
+        try:
+            decoded = rv.decode_stack(_tree_iter(c1))
+        except rv.DecodeError as e:
+            return Fail(f'deep/schema/undecodable/{e.what}', f'{n} entries, called from depth {pad}: {e}')
+        for m in diff(decoded, want):
+            return Fail(f'deep/schema/{m.cls}', f'{n} entries serialised from depth {pad}, the cell holds: {m.path}: {m.detail}')
+        ok, c2 = _at_depth(pad, lambda: VmStack.serialize(s))
+        if not ok:
+            f = _refusal(c2, n + pad, 'second-serialize')
+            if f:
+                return f
+        elif c2.hash != c1.hash:
+            return Fail('deep/twice/cell-differs', f'{n} entries, depth {pad}')
+        if not unchanged():
+            return Fail('deep/consumed/second-call', f'{n} entries')
+        ok, back = _at_depth(pad, lambda: VmStack.deserialize(c1.begin_parse()))
+        if not ok:
+            f = _refusal(back, n + pad, 'deserialize')
+            if f:
+                return f
+        else:
+            if not isinstance(back, list):
+                return Fail('deep/deserialize/result-not-a-list', _short(back))
+            for m in diff([norm(x) for x in back], want):
+                return Fail(f'deep/deserialize/{m.cls}', f'{n} entries: {m.path}: {m.detail}')
+    if fill == 'ints':
+        # parse direction on its own: the same stack assembled by hand, also where the writer refuses
+        ref = _hand_stack_of_ints([None if v['t'] == 'null' else int(v['v']) for v in specs])
+        if ser_ok and c1.hash != ref.hash:
+            return Fail('deep/schema/differs-from-hand-assembled-cell', f'{n} entries')
+        okh, backh = _at_depth(pad, lambda: VmStack.deserialize(ref.begin_parse()))
+        if not okh:
+            return _refusal(backh, n + pad, 'deserialize-hand-assembled')
+        if not isinstance(backh, list):
+            return Fail('deep/deserialize/result-not-a-list', _short(backh))
+        for m in diff([norm(x) for x in backh], want):
+            return Fail(f'deep/deserialize-hand-assembled/{m.cls}', f'{n} entries: {m.path}: {m.detail}')
+    return None
+
+
+_NEST_FRAMES = {1: 2, 2: 2, 3: 4}          # library frames per nesting level (VmStackValue -> VmTuple [-> VmTupleRef -> VmTuple])
+
+
+def _nest_build(n, w):
+    """T_0 = empty tuple, T_k = [T_{k-1}] (w=1) | [k, T_{k-1}] (w=2) | [k, T_{k-1}, None] (w=3); built in a loop"""
+    from pytoniq_core.tlb.vm_stack import VmTuple
+    chain = [VmTuple([])]
+    for k in range(1, n + 1):
+        chain.append(VmTuple([chain[-1]] if w == 1 else [k, chain[-1]] if w == 2 else [k, chain[-1], None]))
+    return chain
+
+
+def _nest_walk(top, n, w):
+    """None when `top` reads as T_n, else (level, text); no recursion"""
+    from pytoniq_core.tlb.vm_stack import VmTuple
+    o = top
+    for k in range(n, -1, -1):
+        if not isinstance(o, VmTuple) or not isinstance(o.list, list):
+            return k, f'{type(o).__name__} where a tuple is expected'
+        exp_len = 0 if k == 0 else w
+        if len(o.list) != exp_len:
+            return k, f'tuple of length {len(o.list)} where length {exp_len} is expected'
+        if k == 0:
+            return None
+        if w >= 2 and (o.list[0] != k or isinstance(o.list[0], bool) or not isinstance(o.list[0], int)):
+            return k, f'first element {o.list[0]!r} != {k}'
+        if w == 3 and o.list[2] is not None:
+            return k, f'third element {o.list[2]!r} is not None'
+        o = o.list[0 if w == 1 else 1]
+    return None
+
+
+def _nest_schema(tree, n, w):
+    """the cell tree of VmStack [T_n] against the schema, level by level in a loop (hand-derived from vm_tuple_tcons / vm_tupref_*):
+    value cell of a tuple = 0x07 len:16 ++ VmTuple len; VmTuple 1 = tail:^value; VmTuple 2 = (entry:^value) tail:^value;
+    VmTuple 3 = ref:^(VmTuple 2) tail:^value"""
+    bits, refs = tree
+    if bits[:24] != format(1, '024b') or not refs or refs[0] != ('', []):
+        return 'top', 'not a stack of one entry over vm_stk_nil'
+    cur = (bits[24:], refs[1:])
+    tiny = lambda v: ('00000001' + format(v, '064b'), [])
+    for k in range(n, -1, -1):
+        b, r = cur
+        ln = 0 if k == 0 else w
+        if b != '00000111' + format(ln, '016b'):
+            return k, f'value bits {b[:40]} != tuple tag + length {ln}'
+        if k == 0:
+            return None if not r else (k, 'empty tuple with references')
+        if w == 1:
+            if len(r) != 1:
+                return k, f'{len(r)} references'
+            cur = r[0]
+        elif w == 2:
+            if len(r) != 2 or r[0] != tiny(k):
+                return k, 'VmTuple 2: not (entry:^tinyint k, tail:^value)'
+            cur = r[1]
+        else:
+            if len(r) != 2 or r[1] != ('00000000', []) or r[0][0] != '' or len(r[0][1]) != 2 or r[0][1][0] != tiny(k):
+                return k, 'VmTuple 3: not (ref:^(VmTuple 2 = entry:^tinyint k, tail:^value), tail:^null)'
+            cur = r[0][1][1]
+    return None
+
+
+def _check_deep_nest(case):
+    from pytoniq_core.tlb.vm_stack import VmStack
+    n, w, pad = case['nest'], case['w'], case['pad']
+    chain = _nest_build(n, w)
+    s = [chain[-1]]
+    frames = _NEST_FRAMES[w] * n + pad
+
+    def unchanged():
+        # every level still is what it was built as (chain[k] is T_k and holds chain[k-1])
+        for k in range(n, 0, -1):
+            l = chain[k].list
+            if not isinstance(l, list) or len(l) != w or l[0 if w == 1 else 1] is not chain[k - 1]:
+                return False
+        return len(s) == 1 and s[0] is chain[-1] and chain[0].list == [] and _nest_walk(chain[-1], n, w) is None
+
+    ok, c1 = _at_depth(pad, lambda: VmStack.serialize(s))
+    if not unchanged():
+        return Fail('deep/consumed/nested-tuples/' + ('serialized' if ok else 'refused'), f'{n} tuples of length {w} nested')
+    if not ok:
+        f = _refusal(c1, frames, 'serialize-nested-tuples')
+        if f:
+            return f
+        m = min(n, 20)
+        ok, cl = _at_depth(0, lambda: VmStack.serialize([chain[m]]))
+        if not ok:
+            return Fail(f'deep/after-refusal/serialize-raises/{exc_sig(cl)}', repr(cl))
+        bad = _nest_schema(_tree_iter(cl), m, w)
+        if bad:
+            return Fail('deep/after-refusal/nested-tuples', f'level {bad[0]}: {bad[1]}')
+        return None
+    bad = _nest_schema(_tree_iter(c1), n, w)
+    if bad:
+        return Fail('deep/schema/nested-tuples', f'{n} tuples of length {w} nested, serialised from depth {pad}: level {bad[0]}: {bad[1]}')
+    ok, c2 = _at_depth(pad, lambda: VmStack.serialize(s))
+    if not ok:
+        f = _refusal(c2, frames, 'second-serialize-nested-tuples')
+        if f:
+            return f
+    elif c2.hash != c1.hash:
+        return Fail('deep/twice/cell-differs/nested-tuples', f'{n} x {w}')
+    if not unchanged():
+        return Fail('deep/consumed/nested-tuples/second-call', f'{n} x {w}')
+    ok, back = _at_depth(pad, lambda: VmStack.deserialize(c1.begin_parse()))
+    if not ok:
+        return _refusal(back, frames, 'deserialize-nested-tuples')
+    if not isinstance(back, list) or len(back) != 1:
+        return Fail('deep/deserialize/nested-tuples/stack-length', _short(back))
+    bad = _nest_walk(back[0], n, w)
+    if bad:
+        return Fail('deep/deserialize/nested-tuples', f'{n} tuples of length {w} nested: level {bad[0]}: {bad[1]}')
+    return None
+
+
+def enum_deep(tier):
+    """entries + depth of the caller sweep the band around the interpreter's recursion limit (read here, not assumed); mostly
+    from a shallow caller. An enumeration, not a Hypothesis strategy: Hypothesis raises the recursion limit while it runs a test,
+    an enumerated case is checked under the limit the process really has. Extra cases vary with VERIF_SEED."""
+    import random
+    import sys
+    from harness import core
+    lim = sys.getrecursionlimit()
+    quick = tier == 'quick'
+    fills = ('ints', 'mixed', 'tuples')
+    cases = []
+    add = cases.append
+    # the whole stack-depth range the schema allows beyond everyday sizes, from an (almost) empty call stack
+    ns = set(range(900, 1024, 12 if quick else 3)) | set(range(lim - 30, lim + 6, 2 if quick else 1)) | {1000, 1010, 1022, 1023}
+    for i, n in enumerate(sorted(x for x in ns if 0 <= x <= 1023)):
+        add({'n': n, 'pad': i % 3, 'fill': fills[i % 3]})
+        if not quick or lim - 24 <= n <= lim:
+            add({'n': n, 'pad': (i + 1) % 3, 'fill': fills[(i + 1) % 3]})
+    # smaller stacks serialised from a deep call chain: the same band of totals
+    for j, pad in enumerate((100, 500, 900, 940)):
+        for t in range(lim - 40, lim + 8, 8 if quick else 2):
+            add({'n': max(0, min(t - pad, 1023)), 'pad': pad, 'fill': fills[(j + t) % 3]})
+    # nested tuples: two (length 1, 2) or four (length 3+) frames a level
+    for w in (1, 2, 3):
+        for t in sorted(set(range(lim - 120, lim + 41, 40 if quick else 10)) | set(range(lim - 30, lim + 7, 6 if quick else 2))):
+            add({'nest': max(0, t // _NEST_FRAMES[w]), 'w': w, 'pad': 0})
+        for pad in (300, 800):
+            for t in range(lim - 24, lim + 8, 8 if quick else 2):
+                add({'nest': max(0, (t - pad) // _NEST_FRAMES[w]), 'w': w, 'pad': pad})
+    # everyday sizes from any depth (far from the limit: no refusal is acceptable there)
+    for n, pad in ((0, 0), (1, 0), (40, 0), (120, 300), (300, 100), (5, 900)):
+        add({'n': n, 'pad': pad, 'fill': fills[n % 3]})
+    rnd = random.Random(core.SEED * 7919 + 17)
+    for _ in range(24 if quick else 400):
+        pad = rnd.choice((0, 0, 1, 2, 3, rnd.randrange(4, 950)))
+        t = rnd.randrange(lim - 60, lim + 24)
+        if rnd.random() < 0.3:
+            w = rnd.choice((1, 2, 3))
+            add({'nest': max(0, (t - pad) // _NEST_FRAMES[w]), 'w': w, 'pad': pad})
+        elif pad <= 3 and rnd.random() < 0.5:
+            add({'n': rnd.randrange(900, 1024), 'pad': pad, 'fill': rnd.choice(fills)})
+        else:
+            add({'n': max(0, min(t - pad, 1023)), 'pad': pad, 'fill': rnd.choice(fills)})
+    return cases
+
+
+def _deep_classes(case):
+    import sys
+    lim = sys.getrecursionlimit()
+    if 'nest' in case:
+        fr = _NEST_FRAMES[case['w']] * case['nest'] + case['pad']
+        yield f'deep:nested-tuples/w={case["w"]}'
+    else:
+        fr = case['n'] + case['pad']
+        yield 'deep:stack/fill=' + case['fill']
+        yield 'deep:entries=' + ('<900' if case['n'] < 900 else '900-979' if case['n'] < 980 else '980-999' if case['n'] < 1000 else '1000-1023')
+    yield 'deep:caller=' + ('shallow' if case['pad'] <= 3 else 'deep')
+    yield 'deep:frames-vs-limit=' + ('far-below' if fr < lim - 45 else 'just-below' if fr < lim - 12 else 'at-the-limit' if fr <= lim + 5 else 'beyond')
+
+
 SUBCHECKS = [
     Sub('structured', check, enum=enum_structured, classify=classify, nontrivial=nontrivial, shards=(16, 16),
         note='boundary ints, tuple length x nesting grid, slice consumption grid, every continuation kind x '
@@ -1463,6 +2103,11 @@ SUBCHECKS = [
         n=(3000, 100000), shards=(16, 48)),
     Sub('random-continuations', check, strategy=strat_conts, classify=classify, nontrivial=nontrivial,
         n=(1200, 40000), shards=(16, 32)),
+    Sub('deep-stacks-at-the-recursion-limit', check_deep, enum=enum_deep, classify=_deep_classes, nontrivial=lambda c: True,
+        shards=(8, 16), case_cpu_s=60.0,
+        note='stacks of 900..1023 entries (ints / mixed values / tuples) and tuples nested ~500 deep, serialised and parsed from a '
+             'call stack of chosen depth in a fresh thread, under the recursion limit the process really has (no Hypothesis '
+             'around the call): a refusal by the interpreter limit is accepted, a cell that does not hold all entries is not'),
     Sub('windowed-slices-foreign-encoding', check_window, strategy=strat_window, classify=_window_classes,
         nontrivial=lambda c: True, n=(600, 20000), shards=(4, 16),
         note='VmCellSlice values whose window is a proper part of the cell (hand-assembled stack cells): parse, re-parse, re-serialise'),
